@@ -136,6 +136,7 @@ class Facts:
         self.impls = []
         self.inst = {}
         self.hdr = {}
+        self.unsafes = []
         for f in sorted(glob.glob(os.path.join(d, "*.jsonl"))):
             crate = os.path.basename(f)[:-6]
             self.inst[crate] = {}
@@ -164,6 +165,10 @@ class Facts:
                         self.impls.append(r)
                     elif t == "inst":
                         self.inst[crate][r["id"]] = r
+                    elif t == "unsafe":
+                        r["crate"] = crate
+                        r["nfn"] = norm(r["fn"])
+                        self.unsafes.append(r)
                     elif t == "hdr":
                         self.hdr[crate] = r
                     elif t == "walk_truncated":
